@@ -210,7 +210,10 @@ class BatchProcessing(Scheduling):
         else:
             if cluster.num_provisioned_obs < self.max_resources_split:
                 provision = self._max_resource_provision(cluster, workflow_plan)
-                if provision < self.min_resource_per_workflow:
+                if provision < 1 or provision < self.min_resource_per_workflow:
+                    # Nothing (or too little) to reserve right now: try again
+                    # at the next timestep rather than recording an empty
+                    # reservation
                     return False
                 else:
                     logger.info(f"{provision} machines for {workflow_plan.id}")
